@@ -696,7 +696,8 @@ impl RawAutomaton {
             // False in general, but true in many practical cases. Will be double checked in the
             // next instruction.
             deterministic: false,
-            complete: automata.iter().all(|a| a.complete),
+            // (The empty concatenation is epsilon, which is not complete.)
+            complete: !automata.is_empty() && automata.iter().all(|a| a.complete),
             final_states,
             initial_state,
             markers,
